@@ -1,18 +1,71 @@
 (* C14  Key paths address one place: lookup, assignment and scope reduction agree. *)
+From Coq Require Import String.   (* string literals of the examples; imported first so the list names win *)
 From Coq Require Import NArith ZArith List Bool.
 From DictIO Require Import Chars Str Value Scalar KeyPath SDict TreeSpec KeyPathProofs.
 Import ListNotations.
+
+(* the tree of the non-vacuity examples: dicts in dicts, a list holding a leaf, a dict and a list, an int key, an
+   empty dict *)
+Module C14_ex.
+  Definition ka := KS (of_string "a").  Definition kb := KS (of_string "b").
+  Definition kc := KS (of_string "c").  Definition kd := KS (of_string "d").
+  Definition kvs : list (key * tree) :=
+    [(ka, Dict [(kb, Lst [Leaf (SInt 1); Dict [(kc, Leaf (SStr (of_string "hello world")))]; Lst [Leaf (SInt 2); Leaf (SFloat (of_string "3.5"))]]);
+                (kd, Leaf (SBool true))]);
+     (KI 5, Leaf (SStr (of_string "x")));
+     (kd, Dict [])].
+  Definition t := Dict kvs.
+  Definition nine := Leaf (SInt 9).
+End C14_ex.
 
 (* assignment: the addressed element holds the value afterwards *)
 Theorem C14_set_same : forall t p v t', p <> [] -> set_global_key t p v = Ok t' -> get_path t' p = Some v.
 Proof. exact set_get_same. Qed.
 Print Assumptions C14_set_same.
 
+(* non-vacuity: replacing a leaf four levels down (through a list), addressing a list element from its end, and adding
+   a new key to the empty dict *)
+Example C14_set_same_nonvacuous :
+  (exists t', set_global_key C14_ex.t [C14_ex.ka; C14_ex.kb; KI 1; C14_ex.kc] C14_ex.nine = Ok t' /\
+              get_path t' [C14_ex.ka; C14_ex.kb; KI 1; C14_ex.kc] = Some C14_ex.nine) /\
+  (exists t', set_global_key C14_ex.t [C14_ex.ka; C14_ex.kb; KI (-1); KI 0] C14_ex.nine = Ok t' /\
+              get_path t' [C14_ex.ka; C14_ex.kb; KI (-1); KI 0] = Some C14_ex.nine /\
+              get_path t' [C14_ex.ka; C14_ex.kb; KI 2; KI 0] = Some C14_ex.nine) /\
+  (exists t', set_global_key C14_ex.t [C14_ex.kd; C14_ex.kb] (Lst [C14_ex.nine]) = Ok t' /\
+              get_path t' [C14_ex.kd; C14_ex.kb] = Some (Lst [C14_ex.nine])).
+Proof.
+  split; [|split].
+  - destruct (set_global_key C14_ex.t [C14_ex.ka; C14_ex.kb; KI 1; C14_ex.kc] C14_ex.nine) as [t'|e] eqn:E; [|vm_compute in E; discriminate E].
+    exists t'. split; [reflexivity|]. refine (C14_set_same _ _ _ _ _ E); discriminate.
+  - destruct (set_global_key C14_ex.t [C14_ex.ka; C14_ex.kb; KI (-1); KI 0] C14_ex.nine) as [t'|e] eqn:E; [|vm_compute in E; discriminate E].
+    exists t'. split; [reflexivity|]. split; [refine (C14_set_same _ _ _ _ _ E); discriminate|].
+    vm_compute in E. injection E as <-. vm_compute. reflexivity.
+  - destruct (set_global_key C14_ex.t [C14_ex.kd; C14_ex.kb] (Lst [C14_ex.nine])) as [t'|e] eqn:E; [|vm_compute in E; discriminate E].
+    exists t'. split; [reflexivity|]. refine (C14_set_same _ _ _ _ _ E); discriminate.
+Qed.
+
 (* ... every place on a path that parts from p is unchanged *)
 Theorem C14_set_other : forall t p v t' q,
   set_global_key t p v = Ok t' -> nonneg p = true -> nonneg q = true -> diverge p q -> get_path t' q = get_path t q.
 Proof. exact set_get_other. Qed.
 Print Assumptions C14_set_other.
+
+(* non-vacuity: the assigned path and the observed path part inside the list a.b *)
+Example C14_set_other_nonvacuous :
+  let p := [C14_ex.ka; C14_ex.kb; KI 1; C14_ex.kc] in let q := [C14_ex.ka; C14_ex.kb; KI 2; KI 1] in
+  nonneg p = true /\ nonneg q = true /\ diverge p q /\
+  exists t', set_global_key C14_ex.t p C14_ex.nine = Ok t' /\ t' <> C14_ex.t /\
+             get_path t' q = get_path C14_ex.t q /\ get_path C14_ex.t q = Some (Leaf (SFloat (of_string "3.5"))).
+Proof.
+  intros p q.
+  assert (H1 : nonneg p = true) by reflexivity. assert (H2 : nonneg q = true) by reflexivity.
+  assert (H3 : diverge p q).
+  { exists [C14_ex.ka; C14_ex.kb], (KI 1), (KI 2), [C14_ex.kc], [KI 1]. repeat split; discriminate. }
+  refine (conj H1 (conj H2 (conj H3 _))).
+  destruct (set_global_key C14_ex.t p C14_ex.nine) as [t'|e] eqn:E; [|vm_compute in E; discriminate E].
+  exists t'. split; [reflexivity|]. split; [|split; [exact (C14_set_other _ _ _ _ _ E H1 H2 H3) | vm_compute; reflexivity]].
+  vm_compute in E. injection E as <-. vm_compute. discriminate.
+Qed.
 
 (* ... and the containers above an existing element keep their keys (in order) / their length *)
 Theorem C14_set_shape : forall t p v t' old r,
@@ -21,10 +74,38 @@ Theorem C14_set_shape : forall t p v t' old r,
 Proof. exact set_keeps_shape. Qed.
 Print Assumptions C14_set_shape.
 
+Example C14_set_shape_nonvacuous :
+  let p := [C14_ex.ka; C14_ex.kb; KI 1; C14_ex.kc] in
+  get_path C14_ex.t p = Some (Leaf (SStr (of_string "hello world"))) /\
+  strict_prefix [C14_ex.ka] p /\ strict_prefix [C14_ex.ka; C14_ex.kb] p /\
+  exists t', set_global_key C14_ex.t p C14_ex.nine = Ok t' /\
+             container_sig (get_path t' [C14_ex.ka]) = Some (SigDict [C14_ex.kb; C14_ex.kd]) /\
+             container_sig (get_path t' [C14_ex.ka; C14_ex.kb]) = Some (SigList 3).
+Proof.
+  intros p.
+  assert (H1 : get_path C14_ex.t p = Some (Leaf (SStr (of_string "hello world")))) by (vm_compute; reflexivity).
+  assert (H2 : strict_prefix [C14_ex.ka] p) by (exists C14_ex.kb, [KI 1; C14_ex.kc]; reflexivity).
+  assert (H3 : strict_prefix [C14_ex.ka; C14_ex.kb] p) by (exists (KI 1), [C14_ex.kc]; reflexivity).
+  refine (conj H1 (conj H2 (conj H3 _))).
+  destruct (set_global_key C14_ex.t p C14_ex.nine) as [t'|e] eqn:E; [|vm_compute in E; discriminate E].
+  exists t'. split; [reflexivity|]. split.
+  - rewrite (C14_set_shape _ _ _ _ _ _ E H1 H2). vm_compute. reflexivity.
+  - rewrite (C14_set_shape _ _ _ _ _ _ E H1 H3). vm_compute. reflexivity.
+Qed.
+
 (* paths of length <= 10 never hit the recursion guard; a path of length 11 does *)
 Theorem C14_guard : forall t p v, (length p <= 10)%nat -> set_global_key t p v <> Raise E_Recursion.
 Proof. exact set_guard. Qed.
 Print Assumptions C14_guard.
+
+(* non-vacuity: a path of length 4 in the example tree; the witness at the end of the file shows 10 versus 11 *)
+Example C14_guard_nonvacuous :
+  (length [C14_ex.ka; C14_ex.kb; KI 1; C14_ex.kc] <= 10)%nat /\
+  set_global_key C14_ex.t [C14_ex.ka; C14_ex.kb; KI 1; C14_ex.kc] C14_ex.nine <> Raise E_Recursion.
+Proof.
+  assert (H : (length [C14_ex.ka; C14_ex.kb; KI 1; C14_ex.kc] <= 10)%nat) by (apply PeanoNat.Nat.leb_le; reflexivity).
+  exact (conj H (C14_guard C14_ex.t _ C14_ex.nine H)).
+Qed.
 
 (* search: a returned path leads to a matching leaf; None means no leaf matches *)
 Theorem C14_find_sound : forall q t p, wf t = true -> find_global_key q t = Some p ->
@@ -32,21 +113,65 @@ Theorem C14_find_sound : forall q t p, wf t = true -> find_global_key q t = Some
 Proof. exact find_sound. Qed.
 Print Assumptions C14_find_sound.
 
+Example C14_find_sound_nonvacuous :
+  let q := of_string "lo wo" in
+  wf C14_ex.t = true /\ find_global_key q C14_ex.t = Some [C14_ex.ka; C14_ex.kb; KI 1; C14_ex.kc] /\
+  exists v, get_path C14_ex.t [C14_ex.ka; C14_ex.kb; KI 1; C14_ex.kc] = Some (Leaf v) /\ contains q (py_str v) = true.
+Proof.
+  intros q. assert (H1 : wf C14_ex.t = true) by (vm_compute; reflexivity).
+  assert (H2 : find_global_key q C14_ex.t = Some [C14_ex.ka; C14_ex.kb; KI 1; C14_ex.kc]) by (vm_compute; reflexivity).
+  exact (conj H1 (conj H2 (C14_find_sound q C14_ex.t _ H1 H2))).
+Qed.
+
 Theorem C14_find_complete : forall q t, is_container t = true -> find_global_key q t = None ->
   forall p v, get_path t p = Some (Leaf v) -> contains q (py_str v) = false.
 Proof. exact find_complete. Qed.
 Print Assumptions C14_find_complete.
+
+Example C14_find_complete_nonvacuous :
+  let q := of_string "world!" in
+  is_container C14_ex.t = true /\ find_global_key q C14_ex.t = None /\
+  get_path C14_ex.t [C14_ex.ka; C14_ex.kb; KI 1; C14_ex.kc] = Some (Leaf (SStr (of_string "hello world"))) /\
+  contains q (py_str (SStr (of_string "hello world"))) = false.
+Proof.
+  intros q. assert (H1 : is_container C14_ex.t = true) by reflexivity.
+  assert (H2 : find_global_key q C14_ex.t = None) by (vm_compute; reflexivity).
+  assert (H3 : get_path C14_ex.t [C14_ex.ka; C14_ex.kb; KI 1; C14_ex.kc] = Some (Leaf (SStr (of_string "hello world")))) by (vm_compute; reflexivity).
+  exact (conj H1 (conj H2 (conj H3 (C14_find_complete q C14_ex.t H1 H2 _ _ H3)))).
+Qed.
 
 (* existence test: true exactly for paths of dict keys that lead to a dict *)
 Theorem C14_exists : forall kvs0 p, key_exists (Dict kvs0) p = true <-> exists kvs, get_dpath (Dict kvs0) p = Some (Dict kvs).
 Proof. exact key_exists_iff. Qed.
 Print Assumptions C14_exists.
 
+(* (no hypotheses) both directions have instances: a path to a dict, and paths to a leaf / through a list *)
+Example C14_exists_example :
+  key_exists C14_ex.t [C14_ex.ka] = true /\ key_exists C14_ex.t [C14_ex.kd] = true /\
+  key_exists C14_ex.t [C14_ex.ka; C14_ex.kd] = false /\ key_exists C14_ex.t [C14_ex.ka; C14_ex.kb; KI 1] = false.
+Proof. vm_compute. repeat split; reflexivity. Qed.
+
 (* scope reduction: the content of the sub-dict for an existing path, the dict itself otherwise *)
 Theorem C14_scope : forall kvs scope, wf (Dict kvs) = true -> scope <> [] ->
   reduce_scope kvs scope = match get_dpath (Dict kvs) scope with Some (Dict sub) => sub | _ => kvs end.
 Proof. exact reduce_scope_spec. Qed.
 Print Assumptions C14_scope.
+
+(* non-vacuity: a scope that names a sub-dict (reduced to it) and scopes that name a leaf / nothing (dict unchanged) *)
+Example C14_scope_nonvacuous :
+  wf (Dict C14_ex.kvs) = true /\ [C14_ex.ka] <> [] /\
+  reduce_scope C14_ex.kvs [C14_ex.ka] =
+    [(C14_ex.kb, Lst [Leaf (SInt 1); Dict [(C14_ex.kc, Leaf (SStr (of_string "hello world")))]; Lst [Leaf (SInt 2); Leaf (SFloat (of_string "3.5"))]]);
+     (C14_ex.kd, Leaf (SBool true))] /\
+  reduce_scope C14_ex.kvs [C14_ex.ka; C14_ex.kd] = C14_ex.kvs /\ reduce_scope C14_ex.kvs [C14_ex.kc] = C14_ex.kvs.
+Proof.
+  assert (H1 : wf (Dict C14_ex.kvs) = true) by (vm_compute; reflexivity).
+  assert (H2 : [C14_ex.ka] <> []) by discriminate.
+  refine (conj H1 (conj H2 (conj _ (conj _ _)))).
+  - rewrite (C14_scope _ _ H1 H2). vm_compute. reflexivity.
+  - rewrite (C14_scope _ [C14_ex.ka; C14_ex.kd] H1) by discriminate. vm_compute. reflexivity.
+  - rewrite (C14_scope _ [C14_ex.kc] H1) by discriminate. vm_compute. reflexivity.
+Qed.
 
 (* non-vacuity / guard witness *)
 Example C14_guard_witness :
